@@ -8,6 +8,7 @@ SE3 premultiplication (adjoint / adjoint transpose).  1e-9 relative.
 """
 import itertools
 import math
+import operator
 
 import numpy as np
 
@@ -101,6 +102,34 @@ def run_arith(ctx, p):
     form = p.get('form', 'float')
     if form != 'float':
         sig['element_type'] = form
+    if op in ('iadd_shared', 'isub_shared'):
+        # an accumulator started from an element of a sequence (total = f[0]; total += f[i]) and a copy (v = C(v0); v -= d): the
+        # augmented operators give the element-wise result and leave every other object -- the sequence, the copied one -- as it was
+        try:
+            F = mk(c, A, form)
+            total = F[0]
+            for i in range(1, len(A)):
+                total = operator.iadd(total, F[i]) if op == 'iadd_shared' else operator.isub(total, F[i])
+            wt = A[0].copy()
+            for a_ in A[1:]:
+                wt = wt + a_ if op == 'iadd_shared' else wt - a_
+            V0 = mk(c, B[:1], form)
+            V = C(V0)
+            V = operator.iadd(V, F[0]) if op == 'iadd_shared' else operator.isub(V, F[0])
+            wv = B[0] + A[0] if op == 'iadd_shared' else B[0] - A[0]
+        except Exception as e:
+            ctx.bad('arith', dict(sig, kind='raised', exc=type(e).__name__), '%s %s raised %r' % (c, op, e))
+            return
+        ok = type(total) is C and len(total.data) == 1 and np.array_equal(total.data[0], wt) and type(V) is C and np.array_equal(V.data[0], wv)
+        ctx.judge('arith', ok, dict(sig, kind='not_elementwise_or_wrong_class'), lambda: '%s %s: accumulated %s, expected %s; copy then %s gives %s, expected %s' % (
+            c, op, core.short(total.data, 200), wt, op[:4], core.short(V.data, 200), wv))
+        same_ = len(F.data) == len(A) and all(np.array_equal(g, w) for g, w in zip(F.data, A)) and np.array_equal(V0.data[0], B[0])
+        ctx.judge('arith', same_, dict(sig, kind='other_object_changed_by_augmented_operator'),
+                  lambda: '%s %s: after total = f[0]; total op= f[i] the sequence f holds %s (was %s); after v = C(v0); v op= d, v0 holds %s (was %s)' % (
+                      c, op, core.short(F.data, 300), core.short(A, 300), V0.data[0], B[0]))
+        ctx.cell('arith', c, op, len(A))
+        ctx.nontrivial('arith', c, op, [float('%.9g' % t) for v in A + B for t in v])
+        return
     try:
         x, y = mk(c, A, form), mk(c, B, form)
         if op == 'add':
@@ -345,6 +374,10 @@ def run(ctx):
         c = SV[rng.integers(4)]
         m = 1 if rng.random() < 0.6 else int(rng.integers(2, 5))
         drive(RUNNERS, ctx, 'arith', dict(cls=c, op=['add', 'sub', 'neg'][rng.integers(3)], A=[vec6(rng) for _ in range(m)], B=[vec6(rng) for _ in range(m)]))
+        if rng.random() < 0.15:
+            m2 = int(rng.integers(2, 5))
+            drive(RUNNERS, ctx, 'arith', dict(cls=c, op=['iadd_shared', 'isub_shared'][rng.integers(2)], A=[vec6(rng) for _ in range(m2)], B=[vec6(rng) for _ in range(m2)],
+                                              **({'form': 'matrix'} if rng.random() < 0.5 else {})))
         if rng.random() < 0.2:
             drive(RUNNERS, ctx, 'arith', dict(cls=c, op=['add', 'sub', 'neg'][rng.integers(3)], form='matrix', A=[vec6(rng) for _ in range(m)], B=[vec6(rng) for _ in range(m)]))
         if rng.random() < 0.15:      # whole numbers held in a narrow / unsigned integer array: the sum, difference or negative may not fit the type
